@@ -353,6 +353,9 @@ class Body:
             blk = self.blocks[i]
             for j, s in enumerate(blk["stmts"]):
                 if s["k"] in ("assign", "setdiscr"):
+                    # a store through a pointer/reference local (`(*_5) = ..`) does not define the local itself
+                    if s["lhs"].get("p") and s["lhs"]["p"][0] == "*":
+                        continue
                     d[s["lhs"]["l"]].append(("stmt", i, j, s))
             t = blk["term"]
             if t["k"] == "call":
@@ -662,6 +665,15 @@ def mentions(e, pred):
     return any(pred(x) for x in walk(e))
 
 
+def deep_strip(e):
+    """Remove every ref/deref wrapper anywhere in the tree (compare values irrespective of borrow form)."""
+    if not isinstance(e, tuple) or not e:
+        return e
+    if e[0] in ("ref", "deref") and len(e) == 2:
+        return deep_strip(e[1])
+    return tuple(deep_strip(x) if isinstance(x, tuple) else x for x in e)
+
+
 def strip_refs(e):
     """Remove ref/deref/Copy-clone wrappers to compare values irrespective of borrow form."""
     while isinstance(e, tuple) and e and e[0] in ("ref", "deref"):
@@ -780,3 +792,15 @@ def static_accesses(body):
             if "pl" in a and a["pl"]["l"] in ptr_locals and not a["pl"].get("p"):
                 out.append((ptr_locals[a["pl"]["l"]][0], "mutaddr" if ptr_locals[a["pl"]["l"]][1] else "addr", bb, None))
     return out
+
+
+def cmp_op(e):
+    """Recognise a comparison: returns (op, a, b) with op in Eq/Ne/Lt/Le/Gt/Ge for MIR binops and for
+    calls of PartialEq::{eq,ne} / PartialOrd::{lt,le,gt,ge} in either `<T as Trait>::m` or `Trait::m` form."""
+    if isinstance(e, tuple) and e and e[0] == "binop" and e[1] in ("Eq", "Ne", "Lt", "Le", "Gt", "Ge"):
+        return e[1], e[2], e[3]
+    if isinstance(e, tuple) and e and e[0] == "call" and isinstance(e[1], str) and len(e[2]) == 2:
+        m = re.search(r"(PartialEq|PartialOrd)(<[^>]*>)?>?::(eq|ne|lt|le|gt|ge)$", e[1])
+        if m:
+            return m.group(3).capitalize(), e[2][0], e[2][1]
+    return None
